@@ -548,7 +548,7 @@ func (d *Driver) exec(st *Step, g string) {
 		if st.Policy != nil {
 			pol = st.Policy.K
 		}
-		err := d.api(g, "OpenUpstream", obj, []any{"qos", st.QoS, "policy", pol}, func() (error, []any) {
+		err := d.api(g, "OpenUpstream", obj, []any{"qos", st.QoS, "policy", pol, "closeTimeoutMs", st.CloseTimeoutMs, "ackTimeoutMs", st.AckTimeoutMs}, func() (error, []any) {
 			ctx, cancel := d.ctx(st.CtxMs)
 			defer cancel()
 			u, err := d.conn.OpenUpstream(ctx, obj, opts...)
@@ -560,7 +560,7 @@ func (d *Driver) exec(st *Step, g string) {
 			d.ups[obj] = u
 			d.sids[obj] = sid
 			d.mu.Unlock()
-			return nil, []any{"sid", sid}
+			return nil, []any{"sid", sid, "closeTimeoutMs", st.CloseTimeoutMs, "ackTimeoutMs", st.AckTimeoutMs}
 		})
 		if err != nil && st.Must {
 			d.inconclusive("openUp failed: " + err.Error())
